@@ -23,15 +23,19 @@ import traceback
 
 VERIF = os.path.dirname(os.path.dirname(os.path.abspath(__file__)))
 REPO = os.environ.get("CASM_REPO", "/repo")
-TARGET = os.path.join(VERIF, ".target")
-EVIDENCE = os.path.join(VERIF, "evidence")
-REPLAYS = os.path.join(VERIF, "replays")
+# The overrides below exist only for self-validation against seeded changes in scratch copies
+# (tools/mutant_run.sh); registered checks never set them and always build from /repo.
+TARGET = os.environ.get("VERIF_TARGET", os.path.join(VERIF, ".target"))
+EVIDENCE = os.environ.get("VERIF_EVIDENCE", os.path.join(VERIF, "evidence"))
+REPLAYS = os.environ.get("VERIF_REPLAYS", os.path.join(VERIF, "replays"))
+HARNESS = os.environ.get("VERIF_HARNESS", os.path.join(VERIF, "harness"))
 KNOWN = os.path.join(VERIF, "KNOWN_FINDINGS.jsonl")
 GUARD = "hlorenzi_customasm_verif"
 NCPU = int(os.environ.get("VERIF_JOBS", str(min(16, os.cpu_count() or 4))))
 
 ENV_BASE = dict(os.environ)
 ENV_BASE["CARGO_NET_OFFLINE"] = "true"
+ENV_BASE["CASM_STD_DIR"] = os.path.join(REPO, "std")
 
 
 # --------------------------------------------------------------------------------------------
@@ -70,7 +74,7 @@ def build_probe(profile="rel"):
             env["CARGO_PROFILE_RELEASE_DEBUG_ASSERTIONS"] = "true"
         rc, dt, out = _run_build(
             ["cargo", "build", "--release", "--offline", "--bin", "casm-probe"],
-            env, os.path.join(VERIF, "harness"), os.path.join(TARGET, "build-probe-%s.log" % profile))
+            env, HARNESS, os.path.join(TARGET, "build-probe-%s.log" % profile))
         if rc != 0:
             raise BuildError("probe build (%s) failed:\n%s" % (profile, out[-4000:]))
         return os.path.join(tdir, "release", "casm-probe")
